@@ -330,6 +330,58 @@ class KDE:
     __call__ = evaluate
 
 
+class Rows2:
+    """np.vstack((a, b, ...)): parallel arrays stacked as rows; `.take(order, axis=1)` re-orders every row alike; unpacking gives the rows back"""
+
+    def __init__(self, rows):
+        self.rows = list(rows)
+
+    def take(self, indices, axis=None, **k):
+        if axis in (1, -1):
+            return Rows2([r.take(indices) for r in self.rows])
+        raise Undecided(f"take(axis={axis!r}) on stacked rows")
+
+    def abs_iter(self):
+        return list(self.rows)
+
+    def abs_len(self):
+        return len(self.rows)
+
+    def abs_getitem(self, it, k):
+        if isinstance(k, int) and not isinstance(k, bool):
+            return self.rows[k]
+        if isinstance(k, tuple) and len(k) == 2 and isinstance(k[0], slice) and k[0] == slice(None, None, None):
+            return Rows2([r.abs_getitem(it, k[1]) for r in self.rows])          # m[:, order]
+        raise Undecided(f"index {k!r} on stacked rows")
+
+
+def function_forms(m, array_types):
+    """np.f(x, ...) for the array methods the domains define is x.f(...) (an `axis` of 0 / None / -1 on a 1-D array changes nothing)"""
+    def form(nm):
+        def f(it, x, *a, **k):
+            if not isinstance(x, array_types) or not hasattr(x, nm):
+                raise Undecided(f"np.{nm} of {type(x).__name__}")
+            k = {kk: vv for kk, vv in k.items() if not (kk == "axis" and vv in (0, None, -1))}
+            if nm == "take" and len(a) > 1:
+                a = a[:1] if a[1] in (0, None, -1) else a
+            import inspect
+            meth = getattr(x, nm)
+            try:
+                params = inspect.signature(meth).parameters
+                if not any(p_.kind == p_.VAR_KEYWORD for p_ in params.values()):
+                    k = {kk: vv for kk, vv in k.items() if kk in params}
+            except (TypeError, ValueError):
+                pass
+            return meth(*a, **k)
+        return f
+    for nm in ("argsort", "cumsum", "argmax", "argmin", "searchsorted", "mean", "sum", "take", "any", "all", "max", "min", "copy", "median"):
+        m.ext.setdefault(f"np.{nm}", form(nm))
+    m.ext.setdefault("np.vstack", lambda it, rows, **k: Rows2(list(it.iterate(rows))))
+    m.ext.setdefault("np.stack", lambda it, rows, axis=0, **k: Rows2(list(it.iterate(rows))) if axis == 0 else (_ for _ in ()).throw(Undecided("np.stack(axis != 0)")))
+    if "np.count_nonzero" not in m.ext:
+        m.ext["np.count_nonzero"] = lambda it, x, *a, **k: x.sum() if isinstance(x, array_types) else (_ for _ in ()).throw(Undecided("np.count_nonzero"))
+
+
 def typing_model(role_of):
     m = Model()
 
@@ -475,6 +527,7 @@ def typing_model(role_of):
                 return TV(a.trans, a.deg, False, nonneg=a.nonneg)    # a location estimate has the type (and sign) of one element
             return TV("INV", a.deg, False, nonneg=True)
         m.prims[f"{DESC}.{name}"] = summary
+    function_forms(m, (TV,))
     return m
 
 
@@ -959,6 +1012,7 @@ def const_model():
             return abs(ta.cval() - tb_.cval()) <= Fr(atol) + Fr(rtol) * abs(tb_.cval())
         raise Undecided("np.isclose of symbolic values that are not identical")
     m.ext["np.isclose"] = isclose
+    function_forms(m, (Arr, Mat))
     return m
 
 
